@@ -38,9 +38,32 @@ def info_len(enc):
     return len(enc) - (3 if ptype_of(enc) in (12, 13, 14) else 2)
 
 
+# origin of acknowledgements: those produced by sendack() (voluntary, asked
+# for by collect() only while budget is left) are told apart from those
+# dequeue() hands out (necessary acknowledgement / busy-state change)
+VOLUNTARY = []
+_sendack = llcmod.ServiceAccessPoint.sendack
+
+
+def _sendack_recording(self):
+    p = _sendack(self)
+    if p is not None:
+        VOLUNTARY.append(p)
+    return p
+
+
+llcmod.ServiceAccessPoint.sendack = _sendack_recording
+
+
+def reset(sx):
+    del VOLUNTARY[:]
+
+
 def desc(p):
     """label fragment naming kind and origin of a PDU (never the input)"""
     n = p.name
+    if n in ("RR", "RNR") and any(p is v for v in VOLUNTARY):
+        return n + ".voluntary"
     if n == "DM":
         if p.ssap == 1:
             return "DM.sdp"
@@ -328,9 +351,9 @@ TAILS = {
     "quick": [("UI", 60), ("UI", 125), ("I", 124), ("RR1", 0), ("RNR", 0),
               ("CC", 0), ("DMsap", 0), ("DMsdp", 0), ("SDRES", 1),
               ("SDREQ", 14)],
-    "thorough": [("UI", 60), ("UI", 125), ("I", 57), ("I", 124), ("RR", 0),
-                 ("RR1", 0), ("RNR", 0), ("CC", 0), ("DISC", 0), ("DMsap", 0),
-                 ("DMsdp", 0), ("SDRES", 1), ("SDRES", 33), ("SDREQ", 14)],
+    "thorough": [("UI", 60), ("UI", 125), ("I", 124), ("RR", 0), ("RR1", 0),
+                 ("RNR", 0), ("CC", 0), ("DISC", 0), ("DMsap", 0),
+                 ("DMsdp", 0), ("SDRES", 1), ("SDREQ", 14)],
 }
 
 
@@ -478,8 +501,10 @@ def partitions(tier):
         for it in ITEMS:
             add(1, [it], 1)
             for it2 in TAILS[tier]:
-                add(1, [it, it2], 4)
+                add(1, [it, it2], 4 if it2[0] in ("UI", "I", "RR1", "DMsap") else 3)
             add(0, [it], 3)
+        add(1, [("DMsap0", 0), ("SDRES", 33)], 4)
+        add(1, [("UI", 125), ("SDRES", 33)], 4)
     kmax = 6 if tier == "quick" else 40
     name_sets = [[], [14], [14, 40], [125, 0, 14]]
     if tier == "thorough":
@@ -497,12 +522,13 @@ def partitions(tier):
 MUST_REACH = ["frame:AGF", "frame:single", "emsgsize", "drained", "unit:none",
               "unit:pdu"]
 BOUNDS = {
-    "quick": "collect(): scripts of 1..3 queue items (first from 22 item kinds/sizes, others from 14) built through the real socket API, send-miu symbolic over 128..2175, connection MIU of every data link connection symbolic 128..2175, aggregation on/off, payload lengths {0,1,57,60,124,125,131}, 1/2/33 pending discovery answers, request names of 14/60/125 octets; dequeue() units: budget symbolic over -4..2175, 0..6 answers, 0..3 requests",
-    "thorough": "as quick with scripts of 1..4 items from all 22 kinds and 0..40 pending answers in the unit obligation",
+    "quick": "collect(): scripts of 1..3 queue items (first from 23 item kinds/sizes: UI 1/60/125/131 octets, I 0/57/124/131 octets on an established connection, voluntary RR, necessary RR, RNR, CC, DISC, DM on a SAP send list (also SAP 0), DM in the discovery SAP, 1/2/33 SDRES, SDREQ with a 14/60/125 octet name, raw-socket UI; later items from 10 of them) built through the real socket API; send-miu symbolic over 128..2175, connection MIU of the I-carrying connection symbolic 128..2175, aggregation on (3 items) / off (2 items); every frame until the queues drain.  dequeue() units: budget symbolic over -4..2175, icv 0/4, 0..6 answers, 0..3 requests, every socket class and the SAP send list",
+    "thorough": "as quick with scripts of up to 4 items (two fixed from 23 x 12, two picked from 12; 3 items when the second is a control PDU), up to 3 items without aggregation, and 0..40 pending answers / 7 request-name sets in the discovery unit",
 }
 OUTSIDE = ["encrypted links (llcp-sec, ICV accounting) in collect(); icv_size only in the dequeue() units",
            "scripts longer than the bound; payload lengths other than the anchors (the MIU is symbolic instead)",
            "the blocking halves of connect()/close()/resolve() (a thread sleeping in them is represented by the state they leave when they reach wait())"]
-ASSUMPTIONS = ["env.llcp: Condition.wait() without time-out raises WouldBlock (the caller would sleep); random.choice returns the first element",
+ASSUMPTIONS = ["ServiceAccessPoint.sendack is wrapped by a recorder (labels only: voluntary vs. necessary acknowledgements)",
+               "env.llcp: Condition.wait() without time-out raises WouldBlock (the caller would sleep); random.choice returns the first element",
                "established data link connections are produced by the real passive open (listen, CONNECT dispatched, accept)",
                "unit obligations build the socket state directly (fields that connect()/accept() set)"]
